@@ -349,57 +349,26 @@ class Compiler:
     def _find_captured_vars(self, body: Node, locals_set: set) -> set:
         """Find all variables captured by inner functions."""
         captured = set()
-
-        def visit(node):
-            if isinstance(
-                node, (FunctionDeclaration, FunctionExpression, ArrowFunctionExpression)
-            ):
+        function_types = (
+            FunctionDeclaration,
+            FunctionExpression,
+            ArrowFunctionExpression,
+        )
+        # Iterative walk over every child node, statement heads included (a function
+        # created in the condition of an if, the head of a for or a switch test
+        # captures variables like any other)
+        work_stack = [body]
+        while work_stack:
+            node = work_stack.pop()
+            if isinstance(node, function_types):
                 # Found inner function - check what variables it uses
-                inner_captured = self._find_free_vars_in_function(node, locals_set)
-                captured.update(inner_captured)
-            elif isinstance(node, BlockStatement):
-                for stmt in node.body:
-                    visit(stmt)
-            elif isinstance(node, IfStatement):
-                visit(node.consequent)
-                if node.alternate:
-                    visit(node.alternate)
-            elif isinstance(node, WhileStatement):
-                visit(node.body)
-            elif isinstance(node, DoWhileStatement):
-                visit(node.body)
-            elif isinstance(node, ForStatement):
-                visit(node.body)
-            elif isinstance(node, ForInStatement):
-                visit(node.body)
-            elif isinstance(node, TryStatement):
-                visit(node.block)
-                if node.handler:
-                    visit(node.handler.body)
-                if node.finalizer:
-                    visit(node.finalizer)
-            elif isinstance(node, SwitchStatement):
-                for case in node.cases:
-                    for stmt in case.consequent:
-                        visit(stmt)
-            elif isinstance(node, LabeledStatement):
-                visit(node.body)
-            elif hasattr(node, "__dict__"):
-                # For expression nodes (e.g., arrow function expression body)
+                captured.update(self._find_free_vars_in_function(node, locals_set))
+            elif isinstance(node, Node):
                 for value in node.__dict__.values():
                     if isinstance(value, Node):
-                        visit(value)
+                        work_stack.append(value)
                     elif isinstance(value, list):
-                        for item in value:
-                            if isinstance(item, Node):
-                                visit(item)
-
-        if isinstance(body, BlockStatement):
-            for stmt in body.body:
-                visit(stmt)
-        else:
-            # Expression body (e.g., arrow function with expression)
-            visit(body)
+                        work_stack.extend(v for v in value if isinstance(v, Node))
 
         return captured
 
@@ -1497,11 +1466,12 @@ class Compiler:
                 local_slot = self._get_local(name)
                 cell_slot = self._get_cell_var(name)
                 closure_slot = self._get_free_var(name)
-                if local_slot is not None:
-                    self._emit(OpCode.LOAD_LOCAL, local_slot)
-                    self._emit(OpCode.TYPEOF)
-                elif cell_slot is not None:
+                if cell_slot is not None:
+                    # a captured local lives in its cell, not in the local slot
                     self._emit(OpCode.LOAD_CELL, cell_slot)
+                    self._emit(OpCode.TYPEOF)
+                elif local_slot is not None:
+                    self._emit(OpCode.LOAD_LOCAL, local_slot)
                     self._emit(OpCode.TYPEOF)
                 elif closure_slot is not None:
                     self._emit(OpCode.LOAD_CLOSURE, closure_slot)
